@@ -109,10 +109,14 @@ def worker_lsp(args):
             text = text0
             for k, batch in enumerate(steps):
                 changes = []
-                for ch in batch:
+                for ci, ch in enumerate(batch):
                     T = layout.Text(text)
-                    changes.append({"range": T.rng(ch[0], ch[1]), "text": ch[2]})
-                    text = edits.apply_change(text, ch)
+                    new_text = edits.apply_change(text, ch)
+                    if ci > 0 and rng.random() < .15:
+                        changes.append({"text": new_text}); part.cnt("full_text_changes_inside_batches")   # the same step delivered as a full-text replacement
+                    else:
+                        changes.append({"range": T.rng(ch[0], ch[1]), "text": ch[2]})
+                    text = new_text
                 srv.change(uri, changes)
                 part.ev()
                 check_now = k == len(steps) - 1 or rng.random() < .3
